@@ -32,7 +32,7 @@ namespace PdtVerif.FeatStats
 structure Tensor where
   shape : List Nat
   data : List Rat
-  deriving Repr, BEq
+  deriving Repr, BEq, DecidableEq
 
 def prod : List Nat → Nat
   | [] => 1
@@ -233,6 +233,35 @@ def deltaRow (mode : PadMode) (order w : Nat) (filters : List (List Rat)) (row :
 
 def setAt (l : List Nat) (i v : Nat) : List Nat := l.set i v
 
+/-- The tail of `feat_deltas` once the rows are convolved: `outs[r][u]` is the order-`u` delta of
+row `r` of the input with time moved last (`xtShape` is that tensor's shape, rank `D`).
+`x.view(shape[:-1] + (order+1,) + shape[-1:])`, `transpose(-2, -1)`, `transpose(time_dim, -2)`,
+`movedim(-1, dim)` and, under `concatenate`, `flatten(dim, dim + 1)`. -/
+def assembleDeltas (xtShape : List Nat) (D td dm : Nat) (concatenate : Bool) (order : Nat)
+    (outs : List (List (List Rat))) : Tensor :=
+  let T := xtShape.getLast?.getD 1
+  -- (rows, order+1, T) viewed as shape[:-1] + (order+1, T)
+  let y : Tensor := { shape := xtShape.dropLast ++ [order + 1, T], data := (outs.map List.flatten).flatten }
+  -- transpose(-2, -1): (..., T, order+1); then transpose(time_dim, -2)
+  let y := y.transpose (D - 1) D
+  let y := y.transpose td (D - 1)
+  let y := y.movedim D dm
+  if concatenate then
+    let s := y.shape
+    y.reshape (s.take dm ++ [s.getD dm 1 * s.getD (dm + 1) 1] ++ s.drop (dm + 2))
+  else y
+
+/-- `feat_deltas` after the argument checks (`td`, `dm` normalised, `filters` built): transpose
+time to the end, flatten to rows, pad and convolve every row, re-assemble. -/
+def featDeltasCore (x : Tensor) (td dm : Nat) (concatenate : Bool) (order w : Nat) (mode : PadMode)
+    (filters : List (List Rat)) : Option Tensor :=
+  let D := x.shape.length
+  let xt := x.transpose td (D - 1)
+  let T := xt.shape.getLast?.getD 1
+  let nrows := xt.numel / (if T = 0 then 1 else T)
+  let rows := rowsOf T xt.data (if T = 0 then 0 else nrows)
+  (rows.mapM (deltaRow mode order w filters)).map (assembleDeltas xt.shape D td dm concatenate order)
+
 /-- `feat_deltas(x, dim, time_dim, concatenate, order, width, pad_mode, value)`.
 `none` = `RuntimeError`. -/
 def featDeltas (x : Tensor) (dim timeDim : Int) (concatenate : Bool) (order w : Nat)
@@ -242,22 +271,7 @@ def featDeltas (x : Tensor) (dim timeDim : Int) (concatenate : Bool) (order w : 
   let td ← normDim timeDim D
   let D' := if concatenate then D else D + 1
   let dm ← normDim dim D'
-  let xt := x.transpose td (D - 1)
-  let shape := xt.shape
-  let T := shape.getLast?.getD 1
-  let nrows := xt.numel / (if T = 0 then 1 else T)
-  let rows := rowsOf T xt.data (if T = 0 then 0 else nrows)
-  let outs ← rows.mapM (deltaRow mode order w filters)
-  -- (rows, order+1, T) viewed as shape[:-1] + (order+1, T)
-  let y : Tensor := { shape := shape.dropLast ++ [order + 1, T], data := (outs.map List.flatten).flatten }
-  -- transpose(-2, -1): (..., T, order+1); then transpose(time_dim, -2)
-  let y := y.transpose (D - 1) D
-  let y := y.transpose td (D - 1)
-  let y := y.movedim D dm
-  if concatenate then
-    let s := y.shape
-    pure (y.reshape (s.take dm ++ [s.getD dm 1 * s.getD (dm + 1) 1] ++ s.drop (dm + 2)))
-  else pure y
+  featDeltasCore x td dm concatenate order w mode filters
 
 /-! ## Discounted returns -/
 
